@@ -51,6 +51,7 @@ REQUIRED_COUNTERS = ['tables_compared', 'scripted_generate_calls',
                      'variates_consumed', 'boundary_variates',
                      'matching_weight_vectors', 'bposd_prior_vectors',
                      'bposd_conditional_updates', 'deformed_tables',
+                     'tables_reread_after_decoding',
                      'models_reused_across_codes']
 
 OPTIONS = 'IXYZ'
@@ -478,6 +479,17 @@ def check_priors(out, em, code, cls, G, desc, mech, rng):
                       f'{type(e).__name__}: {e} at {where}', desc)
     finally:
         undo()
+    # the decoders above were handed this model's (cached) table: it must
+    # still be the stated channel afterwards
+    T = np.stack([np.asarray(x, dtype=float) for x in
+                  em.probability_distribution(code, p)], axis=1)
+    out.count('tables_reread_after_decoding')
+    if T.shape != G.shape or np.max(np.abs(T - G)) > 0:
+        i = int(np.argmax(np.max(np.abs(T - G), axis=1)))
+        out.violation(f'{mech}/table-changed-after-decoding',
+                      f'after building / running decoders on it the model '
+                      f'returns a different table: qubit {i} {T[i].tolist()} '
+                      f'vs {G[i].tolist()}', desc)
 
 
 # ------------------------------------------------------------------- driver
